@@ -1,0 +1,32 @@
+//go:build !verif
+
+package simhook
+
+import (
+	"context"
+	"net"
+)
+
+// Enabled reports whether the package was built with the verif tag.
+const Enabled = false
+
+// Fork is called by a goroutine right before it spawns another one.
+func Fork() uint64 { return 0 }
+
+// Start is the first call in the body of a goroutine announced by Fork.
+func Start(tok uint64) {}
+
+// Enter is the first call in the body of a goroutine which is identified by content.
+func Enter(label string) {}
+
+// Exit is deferred by goroutines that called Start or Enter.
+func Exit() {}
+
+// Yield marks an interleaving point.
+func Yield(label string) {}
+
+// Order returns the order in which n items should be visited, nil means as they are.
+func Order(n int, key func(i int) string) []int { return nil }
+
+// NetDial returns the dial function for outgoing stream connections, nil means default.
+func NetDial() func(ctx context.Context, network, addr string) (net.Conn, error) { return nil }
